@@ -139,7 +139,7 @@ def axiom_allowed(a):
     return a in ALLOWED_AXIOMS or a.startswith(ALLOWED_PREFIXES)
 
 
-def check_obligations(ctx, props_file, deps_ok=True):
+def check_obligations(ctx, props_file, extra=()):
     """compile theories/<props_file>.v (after its dependencies) and read Print Assumptions.
     returns dict for the evidence file; records failures in ctx."""
     t0 = time.time()
@@ -154,7 +154,7 @@ def check_obligations(ctx, props_file, deps_ok=True):
             ctx.obligation_failed("development-scan", b)
         return res
     with Lock():
-        ok, out = make([props_file])
+        ok, out = make([props_file] + list(extra))
         if not ok:
             # which file / line failed?
             m = re.search(r'File "\./theories/([A-Za-z0-9_]+)\.v", line (\d+)[^\n]*\n((?:.*\n){0,12})', out)
